@@ -168,6 +168,34 @@ func SameValue(a, b ssa.Value) bool {
 	if ok1 && ok2 && ca.Value != nil && cb.Value != nil {
 		return constant.Compare(ca.Value, token.EQL, cb.Value)
 	}
+	// two loads of the same constant element of the same slice value that nobody writes into (`parts[1]` twice:
+	// go/ssa does not share the loads)
+	la, ok1 := a.(*ssa.UnOp)
+	lb, ok2 := b.(*ssa.UnOp)
+	if ok1 && ok2 && la.Op == token.MUL && lb.Op == token.MUL {
+		ia, ok1 := la.X.(*ssa.IndexAddr)
+		ib, ok2 := lb.X.(*ssa.IndexAddr)
+		if ok1 && ok2 && ia.X == ib.X {
+			ka, isA := ConstInt(ia.Index)
+			kb, isB := ConstInt(ib.Index)
+			if isA && isB && ka == kb {
+				{
+					if _, _, fromCall := CallResult(ia.X); fromCall {
+						for _, r := range Referrers(ia.X) {
+							if x, ok := r.(*ssa.IndexAddr); ok {
+								for _, rr := range Referrers(x) {
+									if st, ok := rr.(*ssa.Store); ok && st.Addr == ssa.Value(x) {
+										return false
+									}
+								}
+							}
+						}
+						return true
+					}
+				}
+			}
+		}
+	}
 	return false
 }
 
@@ -637,6 +665,55 @@ func CallResult(v ssa.Value) (*ssa.Call, int, bool) {
 		}
 	}
 	return nil, 0, false
+}
+
+// CallResultFlat is CallResult with results that are small unexported structs (flatWidth) counted by their fields:
+// for `func f() (T{a, b, c}, error)` the value `res.b` of `res, err := f()` is component 1 and err component 3 — the
+// same numbers the separate results `a, b, c, err` would have.
+func CallResultFlat(v ssa.Value) (*ssa.Call, int, bool) {
+	v = Unwrap(v)
+	field := -1
+	if f, ok := v.(*ssa.Field); ok {
+		field = f.Field
+		v = Unwrap(f.X)
+	} else if ld, ok := v.(*ssa.UnOp); ok && ld.Op == token.MUL {
+		// a local struct variable lives in a cell: `res, err = f()` stores the struct, `res.b` loads a field of it
+		if fa, ok := ld.X.(*ssa.FieldAddr); ok {
+			if al, ok := fa.X.(*ssa.Alloc); ok {
+				var stored ssa.Value
+				n := 0
+				for _, r := range Referrers(al) {
+					if st, ok := r.(*ssa.Store); ok && st.Addr == ssa.Value(al) {
+						stored = st.Val
+						n++
+					}
+				}
+				if n == 1 {
+					field = fa.Field
+					v = Unwrap(stored)
+				}
+			}
+		}
+	}
+	call, idx, ok := CallResult(v)
+	if !ok {
+		return nil, 0, false
+	}
+	res := call.Call.Signature().Results()
+	if idx >= res.Len() {
+		return nil, 0, false
+	}
+	off := 0
+	for j := 0; j < idx; j++ {
+		off += flatWidth(res.At(j).Type())
+	}
+	if field >= 0 {
+		if flatWidth(res.At(idx).Type()) <= 1 || field >= flatWidth(res.At(idx).Type()) {
+			return nil, 0, false
+		}
+		return call, off + field, true
+	}
+	return call, off, true
 }
 
 // IsResultOf reports whether v is a result of a call to one of the named callees.
